@@ -73,3 +73,18 @@ chk("C16", "model_checking",
     "After every transition of the search the registered mux router and client/http.Witness are queried for all three logs and the log list and compared with ground truth (for SQL the chkpts table itself, not the persistence object): 200+exact bytes / 404, client bytes / os.ErrNotExist, list = logs with an accepted update (refused first submissions, including one refused after the store was opened, create no entry); 20 odd IDs never yield another log's checkpoint.",
     "Sizes 0..5 (quick) / 0..8 (thorough). In-memory ground truth necessarily goes through the store's own read path.",
     "DESIGN.md §5 C16")
+chk("C02", "exploration",
+    "bounded-exhaustive input enumeration: complete byte-level 1-edit neighbourhoods and line-level edits of valid checkpoints plus all cross-log replays, with a one-directional authenticity oracle (set of texts the harness signed; crypto/ed25519 directly)",
+    "Every prefix, single-bit flip, 8 boundary substitutions and deletion at every byte of 4 seed checkpoints, 25 signature-block / body-line edits, and every checkpoint of every log submitted under every other ID and unknown IDs, in 3 configurations (incl. two logs sharing a key under different origins) x empty/seeded witness. Anything accepted or stored must be a text the configured key signed with the configured origin as first line; inputs the harness decides are unauthentic must be refused with no state change.",
+    "Exhaustive over the stated neighbourhoods, not over all byte strings. Ed25519 unforgeability is the ground truth.",
+    "DESIGN.md §5 C02")
+chk("C17", "exploration",
+    "exhaustive enumeration of every shipped configuration entry through the functions Main uses, starting each entry's feeder against a transport that refuses every request",
+    "The configuration space is finite (every entry of logs.yaml and logs_test.yaml as found in the working tree) and is enumerated completely: key parses and matches its name/hash, ID unique, feeder known, AsLogMap succeeds, the feeder gets as far as a network request to the configured host without panicking, witness map IDs equal the feeder list IDs.",
+    "Only the shipped files are the subject; the embedded copy is asserted equal to the working-tree file so a stale build cannot pass.",
+    "DESIGN.md §5 C17", False)
+chk("C18", "exploration",
+    "bounded-exhaustive enumeration of tile coordinates against tlog.Tile.Path and of all size pairs through the real sumdb feeder against an in-process tile server, proofs checked by an independent RFC 6962 verifier and the real witness",
+    "295 000 (level, index, width) coordinates incl. every carry boundary of the path encoding up to 10^9 are compared with the reference tlog path; the real sumdb.FeedLog runs for all 44 850 (quick, <= 300) / 719 400 (thorough, <= 1200) size pairs against a server that rejects any tile that does not exist at that size or has the wrong width; each proof must verify under ref6962 and merkle and (boundary pairs, every 7th pair) be accepted by the real witness.",
+    "Indices beyond 2100 only at carry boundaries; sizes up to 1200 on one generated tree.",
+    "DESIGN.md §5 C18")
